@@ -237,8 +237,8 @@ func (n *namer) draw(t *rapid.T, label, kind, ns string, ok func(string) bool) s
 		if (kind == "parameter" || kind == "path-parameter" || kind == "header") && k == "body" {
 			continue // would collide with the body parameter (C08's subject)
 		}
-		if kind == "operation-id" && k == "new" {
-			continue // New + <other operation> collides with that operation's constructor (C08's subject)
+		if kind == "operation-id" && (k == "new" || strings.HasSuffix(k, "params") || strings.HasSuffix(k, "parameters") || strings.HasSuffix(k, "responses") || strings.HasSuffix(k, "urlbuilder") || strings.HasSuffix(k, "body") || strings.HasPrefix(k, "new")) {
+			continue // <op>Params / New<op> ... collide with the types generated for another operation (C08's subject)
 		}
 		if !n.unfilter {
 			rule := knownBad(kind, s)
